@@ -6,7 +6,7 @@ import z3
 from pyvc import smt
 from pyvc.smt import SV, TBool, TRefT
 from spec import vocab as V
-from contracts.apply import A, B, cid, cols, eng, truthful_cols, reg_cls
+from contracts.apply import A, B, cid, cols, eng, truthful_cols, reg_cls, keeps_ready
 
 
 def resolved(c, j):
@@ -68,6 +68,7 @@ def register(reg):
     k.ens("rows-are-the-operation-applied", lambda c: B(V.rows(c.result.z) == V.bsem(c.self.z, V.rows(c.lhs.z), V.rows(c.rhs.z))))
     k.ens("result-columns-truthful", lambda c: B(truthful_cols(c, c.result.z)))
     k.ens("result-in-an-operand-engine", lambda c: B(z3.Or(eng(c, c.result.z) == eng(c, c.lhs.z), eng(c, c.result.z) == eng(c, c.rhs.z))))
+    k.ens("introduces-no-unprocessed-transfer", lambda c: keeps_ready(c, c.result.z, c.lhs.z, c.rhs.z))
     k.must("join-across-engines-rejected", "EngineError",
            lambda c: B(z3.And(smt.typ(c.self.z) == cid(c, "Join"), eng(c, c.lhs.z) != eng(c, c.rhs.z),
                               z3.Not(A(c, "BaseRelation", "is_join_identity")(c.lhs.z)), z3.Not(A(c, "BaseRelation", "is_join_identity")(c.rhs.z)))))
@@ -82,6 +83,7 @@ def register(reg):
     k.ens("rows-are-the-operation-applied", lambda c: B(V.rows(c.result.z) == V.bsem(c.operation.z, V.rows(c.lhs.z), V.rows(c.rhs.z))))
     k.ens("result-columns-truthful", lambda c: B(truthful_cols(c, c.result.z)))
     k.ens("result-in-an-operand-engine", lambda c: B(z3.Or(eng(c, c.result.z) == eng(c, c.lhs.z), eng(c, c.result.z) == eng(c, c.rhs.z))))
+    k.ens("introduces-no-unprocessed-transfer", lambda c: keeps_ready(c, c.result.z, c.lhs.z, c.rhs.z))
     k.raises("EngineError", None)
     k.raises("RelationalAlgebraError", None)
 
@@ -90,6 +92,7 @@ def register(reg):
     k.ens("rows-are-the-operation-applied", lambda c: B(V.rows(c.result.z) == V.bsem(c.self.z, V.rows(c.lhs.z), V.rows(c.rhs.z))))
     k.ens("result-columns-truthful", lambda c: B(truthful_cols(c, c.result.z)))
     k.ens("result-in-an-operand-engine", lambda c: B(z3.Or(eng(c, c.result.z) == eng(c, c.lhs.z), eng(c, c.result.z) == eng(c, c.rhs.z))))
+    k.ens("introduces-no-unprocessed-transfer", lambda c: keeps_ready(c, c.result.z, c.lhs.z, c.rhs.z))
     k.raises("EngineError", None)
     k.raises("ColumnError", None)
     k.raises("RelationalAlgebraError", None)
